@@ -1,5 +1,6 @@
 import BdModel.Proofs.Sched.Limit
 import BdModel.Proofs.Sched.Progress
+import BdModel.Proofs.Sched.Termination
 /-
   C15 — no more steps run at once than maxActiveRuns allows.
 -/
@@ -50,6 +51,29 @@ theorem C15_never_blocks (c : Cfg) (hw : WF c) (hrk : Ranked c) (hn : NoRep c) (
   · exact Or.inl ⟨j, hj, hrun, worker_progress c hn s hr j hrun⟩
   · exact Or.inr (scan_progress c hw hrk s hscan hnc hnf (fun j hj h => hno ⟨j, hj, h⟩))
 
+/-- **C15 (the limit never prevents a run from completing) / termination.** Whatever
+    `maxActiveRuns` is: (1) every transition of a run strictly decreases the natural-number `measure`
+    (retries left, position of every worker, position of the loop), leaves the state unchanged (a loop
+    visit that finds nothing to do — e.g. because the limit is reached —, a repeated stop), or is a
+    signal delivery, which never increases it; (2) as long as `Schedule` has not returned, a
+    measure-decreasing transition is enabled — the limit can make the loop wait, but then a running
+    step's worker can move; (3) so from every reachable state at most `measure c s` productive
+    transitions lead to `Schedule` having returned. Environment assumption made explicit by the model:
+    a running command ends (`execEnd` is enabled while it runs), by itself or by the stop escalation. -/
+theorem C15_completes (c : Cfg) (hw : WF c) (hrk : Ranked c) (hn : NoRep c) (s : State) (hr : Reach c s) :
+    (∀ a s', step c s a = some s' →
+        measure c s' < measure c s ∨ s' = s ∨
+          ((∃ i sig ovr, a = .signalNode i sig ovr) ∧ measure c s' ≤ measure c s)) ∧
+    (s.loop ≠ .returned → ∃ a s', step c s a = some s' ∧ measure c s' < measure c s) ∧
+    (∀ as, descents c s as ≤ measure c s) ∧
+    (∃ as s', runActs c s as = some s' ∧ s'.loop = .returned ∧ as.length ≤ measure c s) := by
+  have h0 := start_init c
+  have hr' := (reach_iff_from c s).1 hr
+  exact ⟨fun a s' hs => step_measure c hn h0 s hr' a s' hs,
+         fun hnr => productive_enabled c hw hrk hn h0 s hr' hnr,
+         fun as => descents_le c hn h0 as s hr',
+         can_return c hw hrk hn h0 _ s hr' rfl⟩
+
 /-- non-vacuity: with k = 1 and the first step finished, the waiting second step is launched -/
 example : ((runActs demo1 (init demo1) (launch 0 ++ [.execEnd 0 true, .tail 0, .visitDecide 1])).map fun s => s.loop) =
     some (.launching 1) := by decide
@@ -60,3 +84,4 @@ end BdModel.P15
 #print axioms BdModel.P15.C15
 #print axioms BdModel.P15.C15_workers
 #print axioms BdModel.P15.C15_never_blocks
+#print axioms BdModel.P15.C15_completes
